@@ -87,6 +87,18 @@ def parseAuthData (val : Bytes) : Except Err AuthData := do
   pure { rpIdHash := slice val 0 32, flags := parseFlags flagsByte, signCount := beNat (slice val 33 37),
          attested := r1.1, extensions := r2.1 }
 
+/-! ### the layout a conformant authenticator emits (spec side of the C11 round-trip theorems;
+tied to the simulator's `auth_data` by the C11 correspondence check) -/
+
+/-- the attested-credential-data block -/
+def encodeAttested (aaguid credId : Bytes) (key : Cbor) : Bytes :=
+  aaguid ++ beBytes credId.length 2 ++ credId ++ Cbor.enc key
+
+def encodeAuthData (rp : Bytes) (fb : UInt8) (ctr : Nat) (att : Option (Bytes × Bytes × Cbor)) (ext : Option Cbor) : Bytes :=
+  rp ++ [fb] ++ beBytes ctr 4 ++
+    (match att with | none => [] | some (a, i, k) => encodeAttested a i k) ++
+    (match ext with | none => [] | some e => Cbor.enc e)
+
 /-- `parse_backup_flags`: (credential_device_type, credential_backed_up) -/
 def parseBackupFlags (f : Flags) : Except Err (String × Bool) :=
   match backupTable.lookup (f.be, f.bs) with
